@@ -222,17 +222,21 @@ Definition nested_block (hbt : irow * (list (list raw) * list raw)) : list raw :
 End Vocabulary.
 
 (* ---------------------------------------------------------------- textual substitution (for the law ds_body_substituted) *)
-(* textual substitution of one variable *)
-Definition sub_seg (x v : str) (s : seg) : seg :=
-  match s with Ref y => if str_eqb y x then Lit v else s | Lit _ => s end.
-Definition sub_inc (x v : str) (i : incl) : incl :=
+(* textual substitution of one variable by the value it is bound to *)
+Definition value_entries (v : value) : list str :=
+  match v with VL l => l | VS s => [s] | VI n => [enc_dec n] end.
+Definition sub_seg (x : str) (v : value) (s : seg) : seg :=
+  match s with Ref y => if str_eqb y x then Lit (value_str v) else s | Lit _ => s end.
+Definition sub_inc (x : str) (v : value) (i : incl) : incl :=
   match i with
-  | IncRef y => if str_eqb y x then (if str_eqb (lower (strip v)) s_false then IncFalse else IncTrue) else i
+  | IncRef y => if str_eqb y x then (if str_eqb (lower (strip (value_str v))) s_false then IncFalse else IncTrue) else i
+  | IncCmp y pos w =>
+    if str_eqb y x then (if (if pos then value_is_word v w else negb (value_is_word v w)) then IncTrue else IncFalse) else i
   | _ => i
   end.
-Definition sub_iter (x v : str) (it : iterspec) : iterspec :=
-  match it with IRef y => if str_eqb y x then ILit [v] else it | _ => it end.
-Definition sub_row (x v : str) (r : raw) : raw :=
+Definition sub_iter (x : str) (v : value) (it : iterspec) : iterspec :=
+  match it with IRef y => if str_eqb y x then ILit (value_entries v) else it | _ => it end.
+Definition sub_row (x : str) (v : value) (r : raw) : raw :=
   mkRaw (rw_kind r) (sub_inc x v (rw_inc r)) (map (sub_seg x v) (rw_id r)) (map (sub_seg x v) (rw_text r))
         (rw_vars r) (sub_iter x v (rw_iter r)).
 
@@ -243,5 +247,5 @@ Definition map_rem (g : list raw -> list raw) (r : res (list raw * list raw)) : 
 
 (* both loop variables: the index variable first (it is bound last, so it wins when the two names coincide) *)
 Definition subst_loop (x : str) (idx : option str) (e : str) (n : nat) (rows : list raw) : list raw :=
-  map (sub_row x e) (match idx with Some i => map (sub_row i (enc_dec n)) rows | None => rows end).
+  map (sub_row x (VS e)) (match idx with Some i => map (sub_row i (VI n)) rows | None => rows end).
 
